@@ -175,6 +175,7 @@ def run(ctx):
                 res.add(Finding('C03', 'C03.c', 'R-MUSTPASS', node.file, node.frame.func.qualname, node.line, ast.unparse(node.ast),
                                 'the operation-output entry is not recorded under the operation alias constant with ordinal 1'))
 
+    rm.replay_idle_clause(ctx, res, 'C03', 'C03.f', 'every exit of play() resets counter / outputs / playback recording (ordinals restart at 1)')
     # ---- C03.d
     extractor_agreement(ctx, res, cd, roles, cl)
 
